@@ -4,6 +4,7 @@ import XV.Props.C03
 import XV.Lemmas.CrashCheck
 import XV.Lemmas.CrashSteps
 import XV.Lemmas.CrashRestart
+import XV.Lemmas.SkipLedger
 /-!
 C06 — crash consistency at every storage-write boundary.
 
@@ -28,7 +29,15 @@ and over the trace, no enumeration):
   (b) `crash_ledger_invariant`;
   (c) `crash_walk_resume`, `crash_during_restart`, `crash_recovery_confluent`, `crash_recovery_canonical`,
       `crash_recovery_same_tables`; refuted: `crash_recovery_same_state_statement` (the pool is NOT recovered);
-  (d) `crash_irrev_along_walk`, `crash_irrev_monotone`.
+  (d) `crash_irrev_along_walk`, `crash_irrev_monotone`;
+  (e) the skip list of a walk (repaired `recoverUnconfirmedTx`): `node_walk_skip_complete` — the list a node's ledger
+      supplies (`ledgerSkip`, the filter of the driver's `walkEnv`) names every pending transaction the chain walked to
+      confirms, by the ledger invariant of C04 —, `node_walk_keeps_invariants`. The walk theorems take the hypothesis
+      `SkipsConfirmed` where they took "a pending transaction that the new branch confirms has a token input" (`hre`).
+      In `runOp` / `opTrace` / `crashStates` the environment of a history is fixed, so its skip list is the same for every
+      walk of the history; `SkipsConfirmed` only asks completeness, which a list that names too much also meets (naming
+      a transaction that is not confirmed on the chain walked to merely drops it from the pool). Supplying the list per
+      walk from the node's ledger (as C01 `chain_refines` does with `HOp.walk … skip`) is open for the crash model.
 What is taken as hypothesis: the crash theorems reduce "every crash state is good" to "the nodes of the UNINTERRUPTED
 run between two operations are good" plus side conditions of the walks. For the C01 half (`SInv`) the uninterrupted
 run is handled here too, from per-operation side conditions (`SStep`, `crash_history_canonical`); the one place
@@ -318,7 +327,9 @@ example : (∃ c, c ∈ ancestors cEnv (cEnv.blocks.length + 1) cM.s.pointer ∧
 invariant `Ledger e x C'` for a suitable ghost log, hence `PoolInv`: one row per key, conservation
 `Σ U + pending fees = total`, and every input of every pending transaction is spent — the pool contains only
 transactions whose effects are present. Hypotheses: those of `crash_state_at_block_boundary`, those of C02
-`walk_Ledger` (which is this statement for the last element alone), and `hfinal` (see `walkTrace_SInv`). -/
+`walk_Ledger` (which is this statement for the last element alone; after the repair of `recoverUnconfirmedTx`: `hskip`, the
+ledger's skip list names every pending transaction the chain walked to confirms, instead of the former dynamic hypothesis
+`hre`), and `hfinal` (see `walkTrace_SInv`). -/
 theorem crash_state_invariants (e : Env) (s : St) (lh : Int) (dest : Nat) (prune : Bool) (g : St) (C C0 : List Nat)
     (W : WalkTree e s.pointer dest) (hinv : KVInv e g)
     (hchain : ChainValid e (ancestors e (e.blocks.length + 1) s.pointer).reverse g)
@@ -329,11 +340,11 @@ theorem crash_state_invariants (e : Env) (s : St) (lh : Int) (dest : Nat) (prune
     (hnd : (C0 ++ blockTxs e (undoTodo e s.pointer dest).2).Nodup)
     (hblk : ∀ bi ∈ (undoTodo e s.pointer dest).2, (∀ i ∈ (e.block bi).txs, (e.tx i).id = i) ∧
       (∀ i ∈ (e.block bi).txs, (e.tx i).coinbase = true → (e.tx i).ins = [] ∧ feeOf (e.tx i).outs = 0))
-    (hre : ∀ i ∈ s.pool, i ∈ C0 ++ blockTxs e (undoTodo e s.pointer dest).2 → (e.tx i).ins ≠ [])
+    (hskip : SkipsConfirmed e s (C0 ++ blockTxs e (undoTodo e s.pointer dest).2))
     (x : St) (hx : x ∈ walkTrace e s lh dest prune) :
     SInv e g x ∧ (∃ C', Ledger e x C') ∧ PoolInv e x ∧
     (∀ i ∈ x.pool, ∀ r ∈ (e.tx i).ins, lookup x.U (r.tx, r.off) = none) := by
-  obtain ⟨C', hC'⟩ := walkTrace_Ledger e s lh dest prune C C0 h hundo hnd hblk hre x hx
+  obtain ⟨C', hC'⟩ := walkTrace_Ledger e s lh dest prune C C0 h hundo hnd hblk hskip x hx
   exact ⟨walkTrace_SInv e s lh dest prune g W hinv hchain hs hfinal x hx, ⟨C', hC'⟩, hC'.toPoolInv,
     hC'.toPoolInv.insSpent⟩
 
@@ -476,13 +487,16 @@ example : ¬ Stored (runOp cEnv (run cEnv cN (cOps.take 2)) (.truncate 1)).l
 
 /-- **an interrupted walk can be resumed**: from every block-boundary state `x` of the trace of a walk, the walk to
 the same destination (same ledger height, same prune flag) performs exactly the remaining batches and returns what
-the interrupted walk would have returned before re-admitting its pool — same verdict, same state, field by field -/
+the interrupted walk would have returned before re-admitting its pool (`repostList e s`: the old pool without the
+transactions the ledger records as confirmed on the chain walked to; the statement formerly said `s.pool`) — same
+verdict, same state, field by field -/
 theorem crash_walk_resume (e : Env) (s : St) (lh : Int) (dest : Nat) (prune : Bool) (W : WalkTree e s.pointer dest)
     (x : St) (hx : x ∈ walkMid e s lh dest prune) :
     walk e x lh dest prune = walkCore e s lh dest prune ∧
     (walk e x lh dest prune).2 = (walk e s lh dest prune).2 ∧
     ((walk e s lh dest prune).2 = true →
-      (walk e s lh dest prune).1 = s.pool.foldl (fun st i => (doTx e st lh i).1) (walk e x lh dest prune).1) ∧
+      (walk e s lh dest prune).1 =
+        (repostList e s).foldl (fun st i => (doTx e st lh i).1) (walk e x lh dest prune).1) ∧
     ((walk e s lh dest prune).2 = false → (walk e x lh dest prune).1 = (walk e s lh dest prune).1) := by
   have h := XV.Crash.walk_resume e s lh dest prune W x hx
   refine ⟨h, by rw [h, walk_ok_iff_core], ?_, ?_⟩
@@ -522,7 +536,8 @@ example : ∀ x ∈ walkMid cEnv cM.s (lh cM) 4 false, ∀ x' ∈ walkTrace cEnv
 Operation `k` of the history walks the state to the ledger tip (`walk tip false`, the node's step after
 `ConfirmBlock` switched the trunk, and the restart itself); the process dies after any batch of it, leaving
 `x = (ledger of the run, s')` with `s'` any element of the trace. Then `x` is a crash state of the history and, with
-`B` the part of the old pool `A ++ B` whose re-admission batches had not been written (the whole old pool when the
+`B` the part of the re-admission list `A ++ B` (`repostList`: the old pool without the transactions the ledger records
+as confirmed on the chain walked to; formerly the old pool) whose batches had not been written (the whole list when the
 crash hit before the first re-admission batch):
 * the restart succeeds exactly when the uninterrupted walk succeeds;
 * on success the state of the uninterrupted run is the recovered state with `B` re-admitted on it, oldest first: all
@@ -539,7 +554,7 @@ theorem crash_recovery_confluent (e : Env) (n : Node) (ops : List Op) (k : Nat)
     (run e n (ops.take k)).withState s' ∈ crashStates e n ops ∧
     run e n (ops.take (k + 1)) = (run e n (ops.take k)).withState
       (walk e (run e n (ops.take k)).s (lh (run e n (ops.take k))) (run e n (ops.take k)).l.tip false).1 ∧
-    ∃ A B, (run e n (ops.take k)).s.pool = A ++ B ∧
+    ∃ A B, repostList e (run e n (ops.take k)).s = A ++ B ∧
       (recover e ((run e n (ops.take k)).withState s')).1.l = (run e n (ops.take (k + 1))).l ∧
       (recover e ((run e n (ops.take k)).withState s')).2 =
         (walk e (run e n (ops.take k)).s (lh (run e n (ops.take k))) (run e n (ops.take k)).l.tip false).2 ∧
@@ -786,5 +801,47 @@ example : ∀ x ∈ crashStates cEnv cN cOps,
     have h1 := crash_history_invariants cEnv cG cN cOps cHistory x hx
     have h2 := crash_ledger_invariant cEnv cN cOps (XV.C04.genesis_inv 1 [0]) (by decide) cLedgerSteps x hx
     ⟨h1.1, h1.2.1, h1.2.2.1, h2.2.1, h2.2.2⟩
+
+-- ------------------------------------------------------------------ 4. the skip list the ledger supplies for a walk
+
+/-- **the skip list a node's ledger supplies for a walk is complete** (repaired `recoverUnconfirmedTx`,
+`isConfirmedOnCurrentChain`; `ledgerSkip` is the filter of the driver's `walkEnv`: `XV.Chain.walkEnv_eq`): if the ledger
+satisfies the invariant of C04 and stores the chain of `dest` as main-chain blocks with the transactions and heights of
+the environment, then every pending transaction that the chain of `dest` confirms is in the list — which is the
+hypothesis `SkipsConfirmed` of the walk theorems of C01 / C02, for the environment the walk runs in -/
+theorem node_walk_skip_complete (e : Env) (n : Node) (dest : Nat) (hpl : ParentLower e)
+    (I : XV.Ledger.LedgerInv n.l)
+    (hm : XV.Snapshot.LedgerMatches n.l e (ancestors e (e.blocks.length + 1) dest)) :
+    SkipsConfirmed (e.withSkip (ledgerSkip n.l n.s.pool dest)) n.s
+      (blockTxs e (ancestors e (e.blocks.length + 1) dest).reverse) :=
+  fun i hi hc => ledgerSkip_skipsConfirmed n.l e n.s dest hpl I hm i hi hc
+
+/-- **a node that walks with the list its ledger supplies keeps the joint invariant** — tokens, key versions and chain
+shape over one ghost log (C01 `walk_LedgerAll_chain_full_withSkip`), in every outcome of the walk, with NO hypothesis on
+the re-submitted transactions and none on the skip list: it is discharged by the ledger invariant of C04. Of the code as
+found (nothing skipped) this was false: C01 `walk_as_found_readmits_confirmed`. -/
+theorem node_walk_keeps_invariants (e : Env) (n : Node) (lh : Int) (dest : Nat) (prune : Bool) (C : List Nat)
+    (hpl : ParentLower e) (hgen : ChainLog e {} []) (h : LedgerAll e n.s C) (hc : ChainLog e n.s C)
+    (hids : ∀ bi ∈ (undoTodo e n.s.pointer dest).2, (e.block bi).id = bi)
+    (hnd : (blockTxs e (ancestors e (e.blocks.length + 1) dest).reverse).Nodup)
+    (hblk : ∀ bi ∈ (undoTodo e n.s.pointer dest).2, (∀ i ∈ (e.block bi).txs, (e.tx i).id = i) ∧
+      (∀ i ∈ (e.block bi).txs, (e.tx i).coinbase = true → (e.tx i).ins = [] ∧ feeOf (e.tx i).outs = 0) ∧
+      (∀ i ∈ (e.block bi).txs, ((e.tx i).kout.map (·.key)).Nodup))
+    (I : XV.Ledger.LedgerInv n.l)
+    (hm : XV.Snapshot.LedgerMatches n.l e (ancestors e (e.blocks.length + 1) dest)) :
+    ∃ C', LedgerAll e (walk (e.withSkip (ledgerSkip n.l n.s.pool dest)) n.s lh dest prune).1 C' ∧
+      ChainLog e (walk (e.withSkip (ledgerSkip n.l n.s.pool dest)) n.s lh dest prune).1 C' ∧
+      ((walk (e.withSkip (ledgerSkip n.l n.s.pool dest)) n.s lh dest prune).2 = true →
+        C' = blockTxs e (ancestors e (e.blocks.length + 1) dest).reverse) :=
+  walk_LedgerAll_chain_full_withSkip e _ n.s lh dest prune C hpl hgen h hc hids hnd hblk
+    (fun i hi hcf => ledgerSkip_skipsConfirmed n.l e n.s dest hpl I hm i hi hcf)
+
+-- the scenario of defect (1) at the level of the ledger tables: genesis block 1 = [10]; the pending transaction 50; the
+-- peer's block 3 = [30 (award), 50] on 1 is confirmed and becomes the tip. For the walk to 3 the ledger supplies [50]; for
+-- a walk to 1 (before the confirmation, or back) nothing — 50 is not on that chain, it has to be re-admitted
+example :
+    let l0 := XV.Ledger.genesis 1 [10]
+    let l1 := (XV.Ledger.confirm l0 3 1 [(30, true), (50, false)]).1
+    l1.tip = 3 ∧ ledgerSkip l1 [50] 3 = [50] ∧ ledgerSkip l0 [50] 1 = [] ∧ ledgerSkip l1 [50] 1 = [] := by decide
 
 end XV.C06
